@@ -26,6 +26,7 @@ import (
 	"os"
 	"os/exec"
 	"path/filepath"
+	"runtime/pprof"
 	"sort"
 	"strconv"
 	"strings"
@@ -40,7 +41,7 @@ import (
 
 // Ev is one event of a history.
 type Ev struct {
-	Op    string `json:"op"`    // add purge deliver lose reject leave crash forge
+	Op    string `json:"op"`    // add purge deliver lose reject quiesce leave crash forge
 	Node  int    `json:"node"`  // 1-based (add purge leave crash forge)
 	Cache string `json:"cache"` // "A" | "B"
 	Slot  int    `json:"slot"`  // deliver/lose/reject: index into the canonical list of in-flight messages
@@ -53,6 +54,8 @@ func (e Ev) String() string {
 		return fmt.Sprintf("%s(n%d,%s)", e.Op, e.Node, e.Cache)
 	case "deliver", "lose", "reject":
 		return fmt.Sprintf("%s(#%d)", e.Op, e.Slot)
+	case "quiesce":
+		return "quiesce"
 	case "forge":
 		return fmt.Sprintf("forge(n%d,%s,hops=%d)", e.Node, e.Cache, e.Hops)
 	}
@@ -80,6 +83,8 @@ func alphabet(n int, thorough bool) []Ev {
 		}
 	}
 
+	evs = append(evs, Ev{Op: "quiesce"})
+
 	for i := 1; i <= n; i++ {
 		evs = append(evs, Ev{Op: "leave", Node: i})
 
@@ -87,8 +92,12 @@ func alphabet(n int, thorough bool) []Ev {
 			evs = append(evs, Ev{Op: "crash", Node: i})
 		}
 
-		for h := 0; h <= 6; h++ {
-			evs = append(evs, Ev{Op: "forge", Node: i, Cache: "A", Hops: h})
+		// forged flushes go to the first two nodes (the nodes differ only in
+		// their place in the joining order)
+		if i <= 2 {
+			for h := 0; h <= 6; h++ {
+				evs = append(evs, Ev{Op: "forge", Node: i, Cache: "A", Hops: h})
+			}
 		}
 	}
 
@@ -158,6 +167,8 @@ func (w *world) enabled(e Ev) bool {
 		return !w.m.gone(e.Node) && !w.outstandingFrom(e.Node)
 	case "deliver", "lose", "reject":
 		return e.Slot < len(w.inflight())
+	case "quiesce":
+		return len(w.inflight()) > 0
 	}
 
 	return false
@@ -195,7 +206,7 @@ func (w *world) step(e Ev, side func(cell, msg string)) (cell, msg string) {
 		cluster.Shutdown()
 		vsched.Settle()
 
-		w.dirty = true
+		w.dirty[e.Node] = true
 		w.m.left[e.Node] = true
 		w.m.listed = w.listed()
 
@@ -235,53 +246,81 @@ func (w *world) step(e Ev, side func(cell, msg string)) (cell, msg string) {
 		}
 
 	case "deliver", "lose", "reject":
-		a := w.inflight()[e.Slot]
-		target := w.nodes[a.to]
-
-		switch {
-		case e.Op == "lose":
-			a.err = errors.New("context deadline exceeded (Client.Timeout exceeded while awaiting headers)")
-
-		case w.m.gone(a.to):
-			// the target went away while the message was on the wire
-			a.err = errRefused
-
-		case e.Op == "reject":
-			rec := httptest.NewRecorder()
-			rec.WriteHeader(http.StatusServiceUnavailable)
-			a.resp = rec.Result()
-
-		default:
-			w.switchTo(target)
-
-			rec, routeStatus := w.serve(a)
-			vsched.Settle() // whatever the handler started runs as the target node
-
-			if !ok2xx(rec.Code) {
-				return fmt.Sprintf("complete:genuine-flush-refused-by-handler:%d", rec.Code),
-					fmt.Sprintf("node %d answered HTTP %d to the flush of cache %s sent by node %d's purge (route table said %d): the peer does not discard the cache", a.to, rec.Code, className(a.bc.cache), a.from, routeStatus)
-			}
-
-			if !ok2xx(routeStatus) {
-				w.routeRef[routeStatus]++
-				side(fmt.Sprintf("complete:genuine-flush-refused-by-route:%d", routeStatus),
-					fmt.Sprintf("node %d's server answers HTTP %d to the flush request that node %d's purge of cache %s sends (POST %s, headers %v) before the flush handler runs: no peer ever discards a cache. (The exploration continues as if the handler had been reached.)", a.to, routeStatus, a.from, className(a.bc.cache), a.url, headerNames(a.header)))
-			}
-
-			if left := w.items(target, a.bc.cache); left > 0 {
-				return "complete:delivered-flush-does-not-discard",
-					fmt.Sprintf("node %d handled the flush of cache %s from node %d (HTTP %d, message names cache id %d, hops %d) and still holds %d item(s) of that cache", a.to, className(a.bc.cache), a.from, rec.Code, a.cacheID, a.hops, left)
-			}
-
-			a.resp = rec.Result()
+		if cell, msg := w.resolve(w.inflight()[e.Slot], e.Op, side); cell != "" {
+			return cell, msg
 		}
 
-		a.resolved = true
+	case "quiesce":
+		// an instant network: deliver whatever is on the wire until nothing is
+		for rounds := 0; len(w.inflight()) > 0; rounds++ {
+			if rounds > 64 {
+				return "bounded:flush-traffic-does-not-end", "after 64 deliveries there are still flush messages on the wire"
+			}
 
-		vsched.Settle() // the sender goes on with its next peer
+			if cell, msg := w.resolve(w.inflight()[0], "deliver", side); cell != "" {
+				return cell, msg
+			}
+
+			if cell, msg := w.judge(Ev{Op: "deliver"}, nil); cell != "" {
+				return cell, msg
+			}
+
+			w.fresh = nil
+		}
 	}
 
 	return w.judge(e, purgeTargets)
+}
+
+// resolve decides the fate of one in-flight message: "deliver" serves it on
+// the target node and hands the answer to the sender, "reject" answers 503
+// without handling it, "lose" makes the sender time out.
+func (w *world) resolve(a *attempt, fate string, side func(cell, msg string)) (cell, msg string) {
+	target := w.nodes[a.to]
+
+	switch {
+	case fate == "lose":
+		a.err = errors.New("context deadline exceeded (Client.Timeout exceeded while awaiting headers)")
+
+	case w.m.gone(a.to):
+		// the target went away while the message was on the wire
+		a.err = errRefused
+
+	case fate == "reject":
+		rec := httptest.NewRecorder()
+		rec.WriteHeader(http.StatusServiceUnavailable)
+		a.resp = rec.Result()
+
+	default:
+		w.switchTo(target)
+
+		rec, routeStatus := w.serve(a)
+		vsched.Settle() // whatever the handler started runs as the target node
+
+		if !ok2xx(rec.Code) {
+			return fmt.Sprintf("complete:genuine-flush-refused-by-handler:%d", rec.Code),
+				fmt.Sprintf("node %d answered HTTP %d to the flush of cache %s sent by node %d's purge (route table said %d): the peer does not discard the cache", a.to, rec.Code, className(a.bc.cache), a.from, routeStatus)
+		}
+
+		if !ok2xx(routeStatus) {
+			w.routeRef[routeStatus]++
+			side(fmt.Sprintf("complete:genuine-flush-refused-by-route:%d", routeStatus),
+				fmt.Sprintf("node %d's server answers HTTP %d to the flush request that node %d's purge of cache %s sends (POST %s, headers %v) before the flush handler runs: no peer ever discards a cache. (The exploration continues as if the handler had been reached.)", a.to, routeStatus, a.from, className(a.bc.cache), a.url, headerNames(a.header)))
+		}
+
+		if left := w.items(target, a.bc.cache); left > 0 {
+			return "complete:delivered-flush-does-not-discard",
+				fmt.Sprintf("node %d handled the flush of cache %s from node %d (HTTP %d, message names cache id %d, hops %d) and still holds %d item(s) of that cache", a.to, className(a.bc.cache), a.from, rec.Code, a.cacheID, a.hops, left)
+		}
+
+		a.resp = rec.Result()
+	}
+
+	a.resolved = true
+
+	vsched.Settle() // the sender goes on with its next peer
+
+	return "", ""
 }
 
 func headerNames(h http.Header) []string {
@@ -485,6 +524,14 @@ func depthFor(r *report.R, n int) int {
 
 const splitDepth = 2
 
+func envOr(k, d string) string {
+	if v := os.Getenv(k); v != "" {
+		return v
+	}
+
+	return d
+}
+
 func saveCov(r *report.R) {
 	for h, v := range w.hopTable {
 		r.Set(fmt.Sprintf("forged_hops_%d", h), v)
@@ -554,7 +601,16 @@ func main() {
 		}
 
 		w = newWorld(n)
+
+		if pf := os.Getenv("VERIF_C29_PROF"); pf != "" {
+			f, _ := os.Create(fmt.Sprintf("%s.%d", pf, os.Getpid()))
+			_ = pprof.StartCPUProfile(f)
+
+			defer pprof.StopCPUProfile()
+		}
+
 		st := explore(r, n, depthFor(r, n)-splitDepth, roots, nil)
+		pprof.StopCPUProfile()
 		r.Add("transitions", int64(st.Transitions))
 		r.Add(fmt.Sprintf("transitions_n%d", n), int64(st.Transitions))
 		saveCov(r)
@@ -632,7 +688,7 @@ func main() {
 		_ = os.WriteFile(rp, b, 0o644)
 
 		cmd := exec.Command(os.Args[0], "shard", strconv.Itoa(jobs[i].n), rp, pp)
-		cmd.Env = append(os.Environ(), "GOMAXPROCS=2")
+		cmd.Env = append(os.Environ(), "GOMAXPROCS="+envOr("VERIF_C29_PROCS", "2"), "GOGC="+envOr("VERIF_C29_GOGC", "400"))
 		out, err := cmd.CombinedOutput()
 		results[i] = res{pp, err, out}
 	})
